@@ -81,6 +81,42 @@ class PCTStrategy(object):
         return None
 
 
+class ParkStrategy(object):
+    """Delay injection at one program point: thread `victim` runs first and alone until its `at`-th pre-emption
+    point, is parked there, and only continues when every other thread has finished or is blocked.  One long delay
+    at a chosen point of one thread's first operation is what a check-then-use window against another thread's
+    complete operation needs; random switching and PCT reach such a point rarely when the other operation is
+    thousands of steps long."""
+    name = 'park'
+
+    def __init__(self, rnd, nthreads, victim, at):
+        pr = list(range(1, nthreads + 1))
+        rnd.shuffle(pr)
+        self.prio = dict(enumerate(pr))
+        self.victim = victim
+        self.at = at
+        self.parked = False
+
+    def _key(self, x):
+        if x.tid == self.victim:
+            return (-1 if self.parked else 10 ** 6, -x.tid)
+        return (self.prio.get(x.tid, 0), -x.tid)
+
+    def choose(self, sim, t, tag, runnable_others):
+        if t.tid == self.victim and not self.parked and t.local_steps >= self.at:
+            self.parked = True
+        if not runnable_others:
+            return None
+        best = max(runnable_others + [t], key=self._key)
+        return best if best is not t else None
+
+    def forced(self, sim, t, candidates):
+        return max(candidates, key=self._key)
+
+    def boost(self, sim, t, runnable_others):
+        return None
+
+
 class ReplayStrategy(object):
     name = 'replay'
 
@@ -421,6 +457,8 @@ class SimStdout(object):
         self.slow = slow
         self.n = 0
         self.fired = []
+        self.cur_op = {}         # tid -> index of the operation that thread is in (set by the workload)
+        self.fired_ops = set()   # (tid, op index) during which a fault was delivered
         self.encoding = 'utf-8'
 
     def write(self, s):
@@ -431,6 +469,7 @@ class SimStdout(object):
         f = self.fault
         if f is not None and self.n == f['at'] and f['kind'] != 'ascii':
             self.fired.append(f['kind'])
+            self.fired_ops.add((t.tid if t is not None else -1, self.cur_op.get(t.tid if t is not None else -1)))
             k = f['kind']
             if k == 'epipe':
                 raise BrokenPipeError(32, 'Broken pipe (injected)')
@@ -444,6 +483,7 @@ class SimStdout(object):
                 s.encode('ascii')
             except UnicodeEncodeError:
                 self.fired.append('ascii')
+                self.fired_ops.add((t.tid if t is not None else -1, self.cur_op.get(t.tid if t is not None else -1)))
                 raise
         if t is not None:
             sim.point('io.write', boost=self.slow)
